@@ -338,7 +338,17 @@ def _install_override(name, f):
     NP.QUALIFIED[name] = h
 
 
+def _named(state, v, hint):
+    """a constant equal to v (so that patterns mention a constant, not an if-then-else term)"""
+    if z3.is_const(v.term):
+        return v
+    c = fresh(v.ty, hint)
+    state.assume(c.term == v.term)
+    return c
+
+
 def argsort_rows(ev, state, m):
+    m = _named(state, m, 'sorted_matrix')
     n0, n1 = m_n0(m), m_n1(m)
     r = fresh(T.TArr2(T.INT), 'argsort2')
     inv = z3.Function(fresh_name('argsort2_inv'), z3.IntSort(), z3.IntSort(), z3.IntSort())
@@ -347,8 +357,10 @@ def argsort_rows(ev, state, m):
         m_n0(r) == n0, m_n1(r) == n1,
         z3.ForAll([i, c], z3.Implies(z3.And(_in(i, n0), _in(c, n1)),
                                      z3.And(_in(m_at(r, i, c), n1), inv(i, m_at(r, i, c)) == c))),
+        # (every column has a rank; triggered by the rank or by the cell of the sorted matrix)
         z3.ForAll([i, c], z3.Implies(z3.And(_in(i, n0), _in(c, n1)),
-                                     z3.And(_in(inv(i, c), n1), m_at(r, i, inv(i, c)) == c))),
+                                     z3.And(_in(inv(i, c), n1), m_at(r, i, inv(i, c)) == c)),
+                  patterns=[inv(i, c), m_at(m, i, c)]),
         z3.ForAll([i, c, c2], z3.Implies(z3.And(_in(i, n0), 0 <= c, c < c2, c2 < n1),
                                          m_at(m, i, m_at(r, i, c)) <= m_at(m, i, m_at(r, i, c2)))))
     return r
@@ -404,7 +416,8 @@ def colsel_of(ev, base, idx):
         i, c = z3.Int('csi_' + ety[0]), z3.Int('csc_' + ety[0])
         mv, iv = SymVal(base.ty, Mv), SymVal(ity, Iv)
         rv = SymVal(base.ty, f(Mv, Iv))
-        ev.ctx.axioms.append(z3.ForAll([Mv, Iv], z3.And(m_n0(rv) == m_n0(mv), m_n1(rv) == seq_len(iv)),
+        ev.ctx.axioms.append(z3.ForAll([Mv, Iv], z3.Implies(z3.And(m_n0(mv) >= 0, seq_len(iv) >= 0),
+                                                            z3.And(m_n0(rv) == m_n0(mv), m_n1(rv) == seq_len(iv))),
                                        patterns=[f(Mv, Iv)]))
         ev.ctx.axioms.append(z3.ForAll(
             [Mv, Iv, i, c], z3.Implies(z3.And(_in(i, m_n0(mv)), _in(c, seq_len(iv))),
@@ -429,7 +442,9 @@ def positions_of(ev, arr, t):
         rv, dv = SymVal(ity, f(Av, tv)), SymVal(ity, g(Av, tv))
         n, m = seq_len(av), seq_len(rv)
         ax = ev.ctx.axioms
-        ax.append(z3.ForAll([Av, tv], z3.And(0 <= m, m <= n), patterns=[f(Av, tv)]))
+        # (stated for well-formed arrays only: a datatype value with a negative length field is
+        # not an array, and an unguarded `0 <= m <= n` would be contradictory for it)
+        ax.append(z3.ForAll([Av, tv], z3.Implies(n >= 0, z3.And(0 <= m, m <= n)), patterns=[f(Av, tv)]))
         ax.append(z3.ForAll([Av, tv, j], z3.Implies(
             _in(j, m), z3.And(_in(seq_at(rv, j), n), seq_at(av, seq_at(rv, j)) == tv, seq_at(dv, seq_at(rv, j)) == j)),
             patterns=[seq_at(rv, j)]))
@@ -553,6 +568,21 @@ def _elem2(v, i, j, ety):
 
 
 def _arr_binop(orig, ev, state, op, a, b, node):
+    if _mine(ev) and a.ty[0] == 'arr2' and b.ty[0] == 'arr' and b.ty[1] in (T.INT, T.REAL) \
+            and a.ty[1] in (T.INT, T.REAL) and isinstance(op, (ast.Div, ast.Sub)):
+        # (n0, n1) op (n1,) : numpy broadcasts the vector along the last axis
+        n0, n1 = m_n0(a), m_n1(a)
+        ev.ctx.oblige(state, seq_len(b) == n1, 'ValueError', node,
+                      'the vector has the length of the last axis (broadcasting)')
+        if isinstance(op, ast.Div):
+            j = z3.Int(fresh_name('dj'))
+            ev.ctx.oblige(state, z3.ForAll([j], z3.Implies(_in(j, n1), to_real(SymVal(b.ty[1], seq_at(b, j))) != 0)),
+                          'ZeroDivisionError', node, 'every divisor is non-zero (A-REAL)')
+            return _pw2(state, n0, n1, T.REAL,
+                        lambda i, j_: _elem2(a, i, j_, T.REAL) / to_real(SymVal(b.ty[1], seq_at(b, j_))), 'bdiv')
+        ety = join_types(a.ty[1], b.ty[1])
+        return _pw2(state, n0, n1, ety,
+                    lambda i, j_: _elem2(a, i, j_, ety) - coerce(SymVal(b.ty[1], seq_at(b, j_)), ety).term, 'bsub')
     if _mine(ev) and (a.ty[0] == 'arr2' or b.ty[0] == 'arr2'):
         ms = [v for v in (a, b) if v.ty[0] == 'arr2']
         for v in (a, b):
@@ -580,9 +610,26 @@ def _arr_binop(orig, ev, state, op, a, b, node):
                           'ZeroDivisionError', node, 'every divisor is non-zero (A-REAL)')
         elif not isinstance(op, (ast.Add, ast.Sub, ast.Mult)):
             raise Unsupported("2-D arithmetic operator")
-        return _pw2(state, n0, n1, ety,
-                    lambda i, j: NP.elem_arith(op, _elem2(a, i, j, ety), _elem2(b, i, j, ety), ety == T.REAL),
-                    'arr2op')
+        r = _pw2(state, n0, n1, ety,
+                 lambda i, j: NP.elem_arith(op, _elem2(a, i, j, ety), _elem2(b, i, j, ety), ety == T.REAL),
+                 'arr2op')
+        if isinstance(op, ast.Div) and a.ty[0] == 'arr2' and b.ty[0] != 'arr2':
+            # consequences of real division by one positive scalar (lemmas checked by
+            # _prove_div_lemmas): order and sign are preserved, x <= d gives x / d <= 1
+            d = to_real(b)
+            i, j, i2, j2 = [z3.Int(fresh_name(x)) for x in ('di', 'dj', 'di2', 'dj2')]
+            x, y = _elem2(a, i, j, T.REAL), _elem2(a, i2, j2, T.REAL)
+            state.assume(
+                z3.Implies(d > 0, z3.ForAll(
+                    [i, j, i2, j2], z3.Implies(z3.And(_in(i, n0), _in(j, n1), _in(i2, n0), _in(j2, n1), x <= y),
+                                               m_at(r, i, j) <= m_at(r, i2, j2)),
+                    patterns=[z3.MultiPattern(m_at(r, i, j), m_at(r, i2, j2))])),
+                z3.Implies(d > 0, z3.ForAll(
+                    [i, j], z3.Implies(z3.And(_in(i, n0), _in(j, n1)),
+                                       z3.And((m_at(r, i, j) > 0) == (x > 0), (m_at(r, i, j) >= 0) == (x >= 0),
+                                              z3.Implies(x <= d, m_at(r, i, j) <= 1))),
+                    patterns=[m_at(r, i, j)])))
+        return r
     return orig(ev, state, op, a, b, node)
 
 
@@ -626,11 +673,23 @@ def _arr2_subscript(orig, ev, state, base, node):
         if NP._is_full_slice(a):
             if _is_reverse_slice(b):
                 # M[:, -1::-1] : columns in reverse order
-                return _pw2(state, n0, n1, ety, lambda i, c: m_at(base, i, n1 - 1 - c), 'colrev')
+                r = _pw2(state, n0, n1, ety, lambda i, c: m_at(base, i, n1 - 1 - c), 'colrev')
+                i_, c_ = z3.Int(fresh_name('pi')), z3.Int(fresh_name('pj'))
+                # (the same fact read from the side of the original matrix)
+                state.assume(z3.ForAll([i_, c_], z3.Implies(z3.And(_in(i_, n0), _in(c_, n1)),
+                                                            m_at(base, i_, c_) == m_at(r, i_, n1 - 1 - c_)),
+                                       patterns=[m_at(base, i_, c_)]))
+                return r
             if isinstance(b, ast.Slice):
                 lo, hi = ev.slice_bounds(state, n1, b)
                 ln = z3.If(hi > lo, hi - lo, 0)
-                return _pw2(state, n0, ln, ety, lambda i, c: m_at(base, i, lo + c), 'colblock')
+                r = _pw2(state, n0, ln, ety, lambda i, c: m_at(base, i, lo + c), 'colblock')
+                if z3.is_int_value(lo) and lo.as_long() == 0:
+                    i_, c_ = z3.Int(fresh_name('pi')), z3.Int(fresh_name('pj'))
+                    state.assume(z3.ForAll([i_, c_], z3.Implies(z3.And(_in(i_, n0), _in(c_, ln)),
+                                                                m_at(base, i_, c_) == m_at(r, i_, c_)),
+                                           patterns=[m_at(base, i_, c_)]))
+                return r
             bv = ev.eval(state, b)
             if bv.ty == T.INT:
                 j = to_int(bv)
@@ -784,7 +843,19 @@ def _arith(orig):
     return arith
 
 
-_INSTALLED = []
+def _prove_div_lemmas():
+    x, y, d = z3.Reals('lem_x lem_y lem_d')
+    for goal in (z3.Implies(z3.And(d > 0, x <= y), x / d <= y / d),
+                 z3.Implies(d > 0, z3.And((x / d > 0) == (x > 0), (x / d >= 0) == (x >= 0))),
+                 z3.Implies(z3.And(d > 0, x <= d), x / d <= 1)):
+        s_ = z3.Solver()
+        s_.set('timeout', 20000)
+        s_.add(z3.Not(goal))
+        if s_.check() != z3.unsat:
+            raise RuntimeError("pyvc.ext.election: division lemma not proved")
+
+
+_prove_div_lemmas()
 
 
 def install():
@@ -862,3 +933,24 @@ def s_close(ev, state, node):
 def s_tol(ev, state, node):
     """float rounding slack of native comparisons; zero in the real-valued model (A-REAL)"""
     return SymVal(T.REAL, z3.RealVal(0))
+
+
+def _n_markers_for_native(path, parent):
+    import json
+    import h5py
+    with h5py.File(path, 'r') as f:
+        return len(f['None' if parent is None else f"{parent[0]}/{parent[1]}"]['reference'][()])
+
+
+_NMK = {}
+
+
+@P.spec_function('n_markers_for', native=_n_markers_for_native)
+def s_n_markers_for(ev, state, node):
+    """number of marker pairs the marker cache stores for a parent node (uninterpreted)"""
+    path, parent = [ev.eval(state, a) for a in node.args]
+    key = (T.sort_of(path.ty).name(), T.sort_of(parent.ty).name())
+    if key not in _NMK:
+        _NMK[key] = z3.Function('n_markers_for_' + '_'.join(key).replace(' ', ''), T.sort_of(path.ty),
+                                T.sort_of(parent.ty), z3.IntSort())
+    return SymVal(T.INT, _NMK[key](path.term, parent.term))
